@@ -252,7 +252,7 @@ def run(out, tier):
         # 1. the specification satisfies the property (runs concurrently with the binders)
         t_check = _bg(C.tlc, "ReaderBuf", k["check"], workers=8, coverage=True, timeout=9000, heap="8g")
         t_live = _bg(C.tlc, "ReaderBuf", "ReaderBuf.live.cfg", workers=2, timeout=9000, heap="4g")
-        t_neg = _bg(C.tlc, "ReaderBuf", "ReaderBuf.ascoded.cfg", workers=1, timeout=3000, heap="2g")
+        t_neg = _bg(C.tlc, "ReaderBuf", "ReaderBuf.ascoded.cfg", workers=1, timeout=3000, heap="2g", extra=("-noGenerateSpecTE",))
         # 2. T: TLC-generated straddle cases on the real parser
         rg, summ, cnt, p, tfiles = _run_T(out, k, exe, tdir)
         # 3. V: hook traces of those parses against ReaderBufTrace with the real constants
